@@ -55,10 +55,10 @@ let classifier cls =
 
 (* ---- the fixed request type verif.rt.Msg (harness/c01.go c01Msgs) ---- *)
 (* (json or proto name, canonical proto name, kind) per message *)
-type fk = Str | Int32 | Msg of string | RepStr | RepMsg of string
+type fk = Str | Int32 | Bytes | Msg of string | RepStr | RepMsg of string
 let schema = [
   "Msg", [("s1","s1",Str); ("s2","s2",Str); ("s3","s3",Str); ("num","num",Int32); ("nest","nest",Msg "Nest");
-          ("rep","rep",RepStr); ("camel_case","camel_case",Str); ("camelCase","camel_case",Str); ("rnest","rnest",RepMsg "Nest")];
+          ("rep","rep",RepStr); ("camel_case","camel_case",Str); ("camelCase","camel_case",Str); ("rnest","rnest",RepMsg "Nest"); ("data","data",Bytes)];
   "Nest", [("a","a",Str); ("b","b",Str); ("deep","deep",Msg "Deep")];
   "Deep", [("x","x",Str)] ]
 (* fieldPath(): Some (canonical names, kinds) *)
@@ -90,6 +90,7 @@ let okconv fp text =
   match resolve_path (keys_of fp) with
   | Some (_, kinds) -> (match L.nth kinds (L.length kinds - 1) with
       | Int32 -> int32_text (utf8_of_runes text) <> None
+      | Bytes -> Params.parse_bytes (str_bytes (utf8_of_runes text)) <> None
       | Msg _ | RepMsg _ -> false
       | _ -> true)
   | None -> false
@@ -103,6 +104,7 @@ let fields_of (params : (BinNums.coq_N list list * BinNums.coq_N list) list) : s
         let name = String.concat "." canon and txt = utf8_of_runes text in
         let v = (match L.nth kinds (L.length kinds - 1) with
             | Int32 -> (match int32_text txt with Some 0 -> None | Some i -> Some ("i" ^ string_of_int i) | None -> Some "?")
+            | Bytes -> (match Params.parse_bytes (str_bytes txt) with Some [] -> None | Some b -> Some ("b" ^ hex_of_bytes b) | None -> Some "?")
             | _ -> Some (hex_of_bytes (str_bytes txt))) in
         let is_rep = (match L.nth kinds (L.length kinds - 1) with RepStr -> true | _ -> false) in
         (match v with
